@@ -103,36 +103,35 @@ pub fn typst(n: &Narsese) -> Result<String, String> {
     typst_routes(n).map(|v| v.into_iter().next().unwrap_or_default())
 }
 
-/// Every public route into the lexical parser agrees on `s`: the method `NarseseFormat::parse`,
-/// the free function `impl_lexical::parse`, the method and the free function `parse_term`; and
-/// when the whole input is a bare term, `parse_term` returns that term.
-pub fn lexical_routes_agree(f: &F, s: &str) -> Result<(), String> {
+/// Whitespace invariance on EVERY public route into the lexical parser: the method `NarseseFormat::parse`, the
+/// free function `impl_lexical::parse`, the method and the free function `parse_term`. Each route must give the
+/// same result for the spaced text `s` as for `reference`, the same token list written without optional blanks
+/// (both Ok and equal, or both Err). The routes are not compared with each other: a route may be stricter or more
+/// lenient than another (say, about what may follow a term) without whitespace mattering to either.
+pub fn lexical_routes_agree(f: &F, s: &str, reference: &str) -> Result<(), String> {
     use narsese::conversion::string::impl_lexical as il;
-    let r = quiet_catch(AssertUnwindSafe(|| {
-        let a = f.l.parse(s).map_err(|e| e.to_string());
-        let b = il::parse(f.l, s).map_err(|e| e.to_string());
-        let t1 = f.l.parse_term(s).map_err(|e| e.to_string());
-        let t2 = il::parse_term(f.l, s).map_err(|e| e.to_string());
-        (a, b, t1, t2)
-    }));
-    let (a, b, t1, t2) = r.map_err(|p| format!("PANIC: a lexical route panics on {s:?}: {p}"))?;
-    let same = |x: &Result<LexNarsese, String>, y: &Result<LexNarsese, String>| match (x, y) {
-        (Ok(p), Ok(q)) => p == q,
-        (Err(_), Err(_)) => true,
-        _ => false,
+    let run = |text: &str| {
+        let text = text.to_string();
+        let f = *f;
+        quiet_catch(AssertUnwindSafe(move || {
+            let a = f.l.parse(&text).map_err(|e| e.to_string());
+            let b = il::parse(f.l, &text).map_err(|e| e.to_string());
+            let t1 = f.l.parse_term(&text).map(LexNarsese::Term).map_err(|e| e.to_string());
+            let t2 = il::parse_term(f.l, &text).map(LexNarsese::Term).map_err(|e| e.to_string());
+            [a, b, t1, t2]
+        }))
     };
-    if !same(&a, &b) {
-        return Err(format!("{s:?}: NarseseFormat::parse gives {a:?} but impl_lexical::parse gives {b:?}"));
-    }
-    match (&t1, &t2) {
-        (Ok(p), Ok(q)) if p == q => {}
-        (Err(_), Err(_)) => {}
-        _ => return Err(format!("{s:?}: NarseseFormat::parse_term gives {t1:?} but impl_lexical::parse_term gives {t2:?}")),
-    }
-    if let Ok(LexNarsese::Term(t)) = &a {
-        match &t1 {
-            Ok(p) if p == t => {}
-            other => return Err(format!("{s:?}: parse gives the bare term {t:?} but parse_term gives {other:?}")),
+    let spaced = run(s).map_err(|p| format!("PANIC: a lexical route panics on {s:?}: {p}"))?;
+    let plain = run(reference).map_err(|p| format!("PANIC: a lexical route panics on {reference:?}: {p}"))?;
+    let names = ["NarseseFormat::parse", "impl_lexical::parse", "NarseseFormat::parse_term", "impl_lexical::parse_term"];
+    for i in 0..4 {
+        let same = match (&spaced[i], &plain[i]) {
+            (Ok(p), Ok(q)) => p == q,
+            (Err(_), Err(_)) => true,
+            _ => false,
+        };
+        if !same {
+            return Err(format!("{}: {s:?} gives {:?} but the same tokens without optional blanks, {reference:?}, give {:?}", names[i], spaced[i], plain[i]));
         }
     }
     Ok(())
